@@ -120,7 +120,7 @@ def gen_item(rng: Random, fields: list[str] | None = None, allow_keyword_mod: bo
     elif kind == "cidr":
         v = pick(rng, ["10.0.0.0/8", "192.168.1.0/24", "172.16.0.0/12", "::1/128", "fe80::/10"])
     elif kind == "num":
-        v = rng.choice([1, 5, 100, 4624, 2.5])
+        v = rng.choice([1, 5, 100, 4624, 2.5, 123456789012345678])  # the last one is not representable as float
     elif kind == "smallnum":
         v = rng.randint(0, 59)
     else:  # pragma: no cover
